@@ -6,6 +6,8 @@ CONSTANTS
   ClearResets <- CodeClearResets
   Writes <- W
   Reads <- R
+  SubWrites <- SW
+  SubReads <- SR
 INVARIANT PristineAtStart
 CONSTRAINT Export
 CHECK_DEADLOCK FALSE
